@@ -780,9 +780,10 @@ def drv_rank_chop(doc, args, inst):
     msgs = []
     cands = [(np.array(s, dtype=np.float64), eps)]
     # the tie family around the model: equal singular values with the threshold exactly on a partial tail
-    for sc in (1e-9, 1e-12):
+    for sc in (1e-9, 1e-12, 1e-17, 1e-30, 1e-150):
         cands.append((np.array([3.0, 2.0, 1.0]) * sc, 1e-3 * sc))
         cands.append((np.array([1.0, 1.0]) * sc, 0.5 * sc))
+        cands.append((np.array([3.0, 2.0, 1.0]) * sc, 0.0))
     for m in (2, 3, 4):
         cands.append((np.ones(m), 1.0))
         cands.append((np.array([2.0] + [1.0] * (m - 1)), 1.0))
@@ -793,6 +794,8 @@ def drv_rank_chop(doc, args, inst):
             msgs.append('rank_chop(%s, %s) = %d outside [1, n]' % (sv.tolist(), e, R))
         elif e > 0 and tail > e * e * (1 + 1e-12):
             msgs.append('rank_chop(%s, %s) = %d discards energy %g > eps^2 = %g' % (sv.tolist(), e, R, tail, e * e))
+        elif e <= 0 and tail > 0:
+            msgs.append('rank_chop(%s, %s) = %d truncates non-zero values although eps <= 0' % (sv.tolist(), e, R))
         if msgs:
             break
     return msgs
@@ -918,6 +921,12 @@ def drv_tt_svd(doc, args, inst):
         except Exception as e:
             return ['history replay raises %s: %s' % (type(e).__name__, str(e)[:200])]
     msgs = _tt_svd_one(doc, args, inst)
+    if not msgs and 'rmax' in doc.get('obligation', '') and not isinstance(inst.get('rmax'), list):
+        # rank-bound obligations: the smallest binding bounds, whatever the model chose
+        for rm in (1, 2):
+            msgs = _tt_svd_one(doc, args, dict(inst, rmax=rm))
+            if msgs:
+                return ['(rmax=%d) ' % rm + m for m in msgs]
     if msgs or inst.get('M'):
         return msgs
     try:
